@@ -33,15 +33,31 @@ def run_kani_both(rep, prop, harness_timeout=1500):
     return r
 
 
+BUS_FNS = "Bus::read, Bus::write, Bus::read_ddr, Bus::write_dr, Bus::read_dr, Bus::write_port, Bus::on_write_ddr, Bus::on_write_dr"
+
+
+def bus_seam(rep, prop):
+    """the per-form harnesses assume the bus seam (plain byte storage over exactly the mapped addresses); the real
+    Bus::read / Bus::write are held to that contract by the Verus unit `bus` (C09 obligations) in the same check"""
+    custom_check.run_verus_unit(rep, prop, "bus", BUS_FNS, id_prefix="C09", seam=True)
+    rep.notes.append("seam contracts assumed by the per-form harnesses and discharged in this same run: bus seam <- Verus unit `bus` (C09/* obligations)"
+                     + ("; cost seam <- the C19 harnesses on the real cost functions (C19/* obligations)" if prop == "C20" else ""))
+
+
 def check_step_only(prop, tier):
     rep = new_report(prop, tier, STEP_TECH)
-    step_check.run_step(rep, prop)
+    if prop == "C20":
+        run_kani_both(rep, prop)
+    else:
+        step_check.run_step(rep, prop)
+    bus_seam(rep, prop)
     return rep.finish(native.find_witness)
 
 
 def check_step_plus_custom(prop, tier):
     rep = new_report(prop, tier, STEP_TECH + " + composition lemmas (call;return / entry;RTE) as Kani harnesses over the real functions")
     run_kani_both(rep, prop)
+    bus_seam(rep, prop)
     if prop in ("C05", "C06"):
         custom_check.run_verus_unit(rep, prop, "nest", "(pure lemma over the single-step contracts: verus/lemmas/nesting.rs)")
         rep.assumptions.append("arbitrary nesting depth: mechanised as a Verus lemma by structural induction over properly nested programs (verus/lemmas/nesting.rs); what stays argued on paper is the abstraction step - that the single-step contracts proved on the real code instantiate enter/leave/other, and that the body of a routine or handler stores nothing at or above its entry SP")
@@ -51,6 +67,7 @@ def check_step_plus_custom(prop, tier):
 def check_c07(prop, tier):
     rep = new_report(prop, tier, "contract on the real Cpu::fetch+Cpu::exec against recording stubs for every dispatch target (Kani/CBMC, all first words x symbolic extension words) + per-form contracts of the STC entries")
     run_kani_both(rep, prop)
+    bus_seam(rep, prop)
     rep.assumptions.append("total instruction length = words consumed by the dispatcher (proved here) + operand words consumed by the entry (the `pc` clause of each form's contract under C01-C06)")
     rep.assumptions.append("second-level dispatch inside the entries (mov_b, mov_w, mov_l, add_*, sub_*, bcc, jmp, jsr, bit ops on memory) is exercised by the per-form contracts, which call those entries")
     return rep.finish(native.find_witness)
@@ -303,6 +320,7 @@ def check_c15(prop, tier):
 def check_c02(prop, tier):
     rep = new_report(prop, tier, STEP_TECH + "; the DIVXU quotient/remainder clause over the full operand domain is discharged by Verus on the extracted divxu_b/divxu_w and register-lane helpers (unit div)")
     step_check.run_step(rep, prop)
+    bus_seam(rep, prop)
     custom_check.run_verus_unit(rep, prop, "div", "Cpu::divxu_b, Cpu::divxu_w, Cpu::read_rn_b/w/l, Cpu::write_rn_w/l, Cpu::write_ccr, Cpu::get_nibble_opcode")
     rep.notes.append("DIVXU: flags, untouched registers, PC and cost are proved by the Kani *_STRUCT harnesses (full domain, destination lanes left open); the value of the destination (quotient low, remainder high, only Rd written) is proved by the Verus unit `div` for all operands; CBMC's own full-domain divider equivalence (DIVXU_B, ~8 min) runs in the thorough tier")
     return rep.finish(native.find_witness)
